@@ -232,7 +232,7 @@ PROPS["C20"] = {
 
 PROPS["C13"] = {
     "bounded_checks": [
-        {"name": "parser", "searcher": "parser", "clause": "tiling + trivia attachment on whole strings through the real tokenize / preparse (covers the assumed lexer contract)", "bound": "all strings up to length 5 over a 12-symbol alphabet incl. multi-byte characters, BOM, CR/LF (346 200 strings)"},
+        {"name": "parser", "searcher": "parser", "clause": "tiling + trivia attachment on whole strings through the real tokenize / preparse (covers the assumed lexer contract)", "bound": "all strings up to length 4 over a 24-symbol alphabet incl. multi-byte characters, BOM, CR/LF (346 200 strings); thorough tier: length 5 (8 308 824 strings)"},
         {"name": "cst", "searcher": "cst", "clause": "the concrete syntax tree contains every non-trivia token exactly once in order (covers what partial correctness of the parser unit leaves: termination on these inputs)", "bound": "73 653 token strings"},
     ],
     "verus_units": ["parser_tokens", "preparse", "cst_parser"],
